@@ -3,7 +3,8 @@
    proved elsewhere, with Print Assumptions beneath it. *)
 From Coq Require Import List.
 From Coq.Strings Require Import Byte.
-From GI Require Import Lib.Bytes Gen.TxtarConsts Txtar.Txtar Txtar.TxtarFacts.
+From GI Require Import Lib.Bytes Gen.TxtarConsts Txtar.Txtar Txtar.TxtarFacts
+  Txtar.TxtarIndex Txtar.TxtarIndexFacts Txtar.TxtarHolds Txtar.TxtarHoldsFacts.
 Import ListNotations.
 
 Theorem C03_parse_format_parse : forall s, parse (format (parse s)) = parse s.
@@ -69,3 +70,27 @@ Theorem C03_crlf_nonmarker_local : forall pre l post,
       = ts1 ++ fix_nl (p ++ (l ++ [NL]) ++ q) :: ts2.
 Proof. exact crlf_nonmarker_local. Qed.
 Print Assumptions C03_crlf_nonmarker_local.
+
+(* ---- the statement-level (index-faithful) model of archive.go, TxtarIndex.v ---- *)
+
+Theorem C03_is_marker_no_panic : forall data, is_marker_idx data <> MPanic.
+Proof. exact is_marker_idx_no_panic. Qed.
+Print Assumptions C03_is_marker_no_panic.
+
+Theorem C03_find_file_marker_total : forall fuel data,
+  length data + 1 <= fuel ->
+  find_file_marker_fuel fuel data <> Panic /\ find_file_marker_fuel fuel data <> OutOfFuel.
+Proof. exact find_file_marker_fuel_total. Qed.
+Print Assumptions C03_find_file_marker_total.
+
+Theorem C03_parse_total : forall s, parse_idx s <> Panic /\ parse_idx s <> OutOfFuel.
+Proof. exact parse_idx_total. Qed.
+Print Assumptions C03_parse_total.
+
+Theorem C03_parse_idx_eq : forall s, parse_idx s = Ok (parse s).
+Proof. exact parse_idx_eq. Qed.
+Print Assumptions C03_parse_idx_eq.
+
+Theorem C03_holds_on : forall s, c03_holds_on s = true.
+Proof. exact c03_holds_on_true. Qed.
+Print Assumptions C03_holds_on.
